@@ -5,12 +5,13 @@ entry) and None elsewhere (a truthy preact would *interrupt* precur)."""
 from ioflo.base import doing
 
 TRACE = []          # events appended by the behaviours
-STATE = {"tick": 0, "watch": [], "store": None, "boom": None, "calls": {}, "framers": None}
+STATE = {"tick": 0, "watch": [], "store": None, "boom": None, "calls": {}, "framers": None, "alias": {}}
 
 
-def reset(watch=(), store=None, boom=None, framers=None):
+def reset(watch=(), store=None, boom=None, framers=None, alias=None):
+    """alias: {name of a clone framer: name it is reported under} (gen.cloneify)"""
     del TRACE[:]
-    STATE.update(tick=0, watch=list(watch), store=store, boom=boom, calls={}, framers=framers)
+    STATE.update(tick=0, watch=list(watch), store=store, boom=boom, calls={}, framers=framers, alias=dict(alias or {}))
 
 
 def snapshot(store):
@@ -34,13 +35,14 @@ def vfRec(self, tag="", **kwa):
     frame = act.frame
     framer = frame.framer
     ctx = act.context
+    alias = STATE["alias"]
     n = STATE["calls"].get(tag, 0) + 1
     STATE["calls"][tag] = n
     TRACE.append({"k": "act", "tick": STATE["tick"], "stamp": self.store.stamp,
-                  "framer": framer.name, "frame": frame.name, "ctx": ctx, "tag": tag,
+                  "framer": alias.get(framer.name, framer.name), "frame": frame.name, "ctx": ctx, "tag": tag,
                   "n": n, "elapsed": framer.elapsedShr.value, "recurred": framer.recurredShr.value,
                   "snap": snapshot(self.store) if STATE["watch"] else None,
-                  "done": ({f.name: bool(f.done) for f in STATE["framers"]} if STATE["framers"] else None)})
+                  "done": ({alias.get(f.name, f.name): bool(f.done) for f in STATE["framers"]} if STATE["framers"] else None)})
     boom = STATE["boom"]
     if boom and boom[0] == tag and boom[1] == n:
         if boom[2] == "KeyboardInterrupt":
